@@ -570,6 +570,12 @@ func execScript(t *testing.T, c *scriptCase) scriptObs {
 			switch c.Body[0] {
 			case 'N':
 				req, err = http.NewRequestWithContext(ctx, method, url, nil)
+			case 'B':
+				// Body == http.NoBody and GetBody == nil (what NewRequest makes of http.NoBody)
+				req, err = http.NewRequestWithContext(ctx, method, url, http.NoBody)
+				if req.GetBody != nil || req.Body != http.NoBody {
+					panic("http.NewRequest(.., http.NoBody) no longer yields Body == NoBody without GetBody")
+				}
 			case 'R':
 				req, err = http.NewRequestWithContext(ctx, method, url, bytes.NewReader(data))
 			case 'O':
@@ -718,7 +724,7 @@ func scriptCaseRun(t *testing.T, c *scriptCase) {
 	// O1: what the registry received on every attempt
 	for i, r := range obs.log {
 		want := data
-		if c.Body[0] == 'N' || upload && r.method == http.MethodPost {
+		if c.Body[0] == 'N' || c.Body[0] == 'B' || upload && r.method == http.MethodPost {
 			want = nil
 		}
 		if r.beh.Read >= 0 && r.beh.Read < len(want) {
@@ -745,7 +751,7 @@ func scriptCaseRun(t *testing.T, c *scriptCase) {
 			break
 		}
 		wantLen := int64(len(data))
-		if c.Body[0] == 'N' || c.UnknownLen || upload && r.method == http.MethodPost {
+		if c.Body[0] == 'N' || c.Body[0] == 'B' || c.UnknownLen || upload && r.method == http.MethodPost {
 			wantLen = 0
 		}
 		if r.clen != wantLen {
@@ -1095,11 +1101,11 @@ func genScript(r *common.Rand, big bool) *scriptCase {
 			}
 		}
 	}
-	c.Body = common.Pick(r, []string{"N", "R", "R", "R", "O", "O", "G"})
+	c.Body = common.Pick(r, []string{"N", "B", "R", "R", "R", "O", "O", "G"})
 	if c.Body == "G" {
 		c.Body = fmt.Sprintf("G%d", r.Intn(4))
 	}
-	if c.Body != "N" {
+	if c.Body != "N" && c.Body != "B" {
 		sz := r.Intn(24)
 		if r.Chance(1, 10) {
 			sz = 0
@@ -1116,7 +1122,7 @@ func genScript(r *common.Rand, big bool) *scriptCase {
 			c.BigLen = 65536 + r.Intn(1<<20)
 		}
 	}
-	if c.Body != "N" && r.Chance(1, 3) {
+	if c.Body != "N" && c.Body != "B" && r.Chance(1, 3) {
 		c.UnknownLen = true
 	}
 	if r.Chance(1, 2) {
@@ -1306,10 +1312,10 @@ func enumScripts(t *testing.T, maxLen int, allCancel bool) {
 	rec = func(prefix []behaviour) {
 		if len(prefix) > 0 {
 			for _, op := range []string{"T", "A", "W"} {
-				for _, body := range []string{"N", "R", "O", "G1"} {
+				for _, body := range []string{"N", "B", "R", "O", "G1"} {
 					c := &scriptCase{Op: op, MaxRetry: 2, Min: 100, Max: 1000, Tbl: []int64{50, 5000}, Dflt: 300, Cancel: -1, Body: body,
 						Script: append([]behaviour(nil), prefix...)}
-					if body != "N" {
+					if body != "N" && body != "B" {
 						c.Data = "0102030405"
 						c.UnknownLen = len(prefix)%2 == 0
 					}
